@@ -141,6 +141,10 @@ class ObjWorld:
                 return cname in v.attrs["$isa"]
             if isinstance(v, Rec):
                 return cname == "Expr"
+            if isinstance(v, (list, tuple)) and (cname.endswith("Sequence") or cname in ("Collection", "Iterable", "Sized")):
+                return True  # collections.abc.Sequence under whatever alias it was imported
+            if isinstance(v, (list, tuple, dict, set, int, str, bytes, bytearray)) and cname in ("list", "tuple", "dict", "set", "int", "str", "bytes", "bytearray"):
+                return type(v).__name__ == cname or (cname == "int" and isinstance(v, bool))
             return None
 
         me.isinstance_hook = isa
